@@ -65,6 +65,7 @@ type VC struct {
 	Obls    []*Obligation
 	counts  map[string]int
 	Inputs  []InputVar // symbolic inputs for replay (params etc.)
+	X       *Exec
 	PreN    int        // number of assumptions that make up the precondition
 }
 
